@@ -204,10 +204,11 @@ def gen_subtask_script(rng, mode, maxcalls, maxbody, stats=None, tasks=False):
 # ---------------------------------------------------------------------------- stream / future scripts (C19/C20)
 
 def gen_chan_decl(rng, want, adapter_ok):
-    """<S|F><W|R><b|r|s><cx>[A]   (harness/rt-native/src/chan.rs); `want`: 'S', 'F' or None"""
+    """<S|F><W|R><b|h|w|d|t|r|s><cx>[A]   (harness/rt-native/src/chan.rs); `want`: 'S', 'F' or None"""
     fut = (want == "F") if want else rng.random() < 0.35
     gw = rng.random() < 0.5
-    kind = rng.choice("rs") if fut else rng.choice("bbrsss")
+    # streams: canonical payloads of element size 1, 2, 4, 8 and a tuple of scalars (8 bytes), lowered without / with lists
+    kind = rng.choice("rs") if fut else rng.choice("bhwdtwdrsss")
     cx = rng.choice([0, 0, 1, 2, 3, 4])
     ad = "A" if (adapter_ok and not fut and not gw and rng.random() < 0.5) else ""
     return ("F" if fut else "S") + ("W" if gw else "R") + kind + str(cx) + ad
